@@ -205,6 +205,11 @@ struct Drv {
         cmp("ge", [](V a, V b) { return a >= b; });
     }
 
+    // C03: mask(vector) is set exactly where the lane is non-zero
+    void tomask() {
+        un_pred("nz", "op", [](V a) { return M(a); });
+    }
+
     //--------------------------------------------------------------------
     // C04
     //--------------------------------------------------------------------
@@ -763,6 +768,7 @@ int main(int argc, char** argv) {
         else if (family == "div") d.division();                                  \
         else if (family == "bitfn") d.bitfn();                                   \
         else if (family == "select") d.select();                                 \
+        else if (family == "tomask") d.tomask();                                 \
     }
     if (!std::getenv("VH_SCALAR_ONLY")) {
         VH_INT_TYPES(RUN_V)
